@@ -110,15 +110,16 @@ theorem dice_range (a b : Int) (raw : Nat → Nat) (k : Nat) (h : Raw64 raw) (ha
   simp only [cnum_ofInt, cnum_floor, cnum_trunc_int]
   rw [i64_of_range (x := b - a) (by omega) (by omega), i64_of_range (x := b - a + 1) (by omega) (by omega)]
   generalize (cmb_random raw k).1 = u at h0 h1
+  -- (the offset may be added before or after taking the floor: both shapes of the source are covered)
+  try simp only [Int.floor_intCast_add]
   have hn : (0 : Rat) < ((b - a + 1 : Int) : Rat) := by exact_mod_cast (by omega : (0 : Int) < b - a + 1)
-  have hlo : a ≤ ⌊(a : Rat) + ((b - a + 1 : Int) : Rat) * u⌋ := by
-    rw [Int.le_floor]; nlinarith
-  have hhi : ⌊(a : Rat) + ((b - a + 1 : Int) : Rat) * u⌋ ≤ b := by
-    have : ⌊(a : Rat) + ((b - a + 1 : Int) : Rat) * u⌋ < b + 1 := by
-      rw [Int.floor_lt]; push_cast; push_cast at hn; nlinarith
-    omega
-  rw [i64_of_range (by omega) (by omega)]
-  exact ⟨hlo, hhi⟩
+  have hlo : 0 ≤ ⌊((b - a + 1 : Int) : Rat) * u⌋ := by
+    rw [Int.le_floor]; simp only [Int.cast_zero]; positivity
+  have hhi : ⌊((b - a + 1 : Int) : Rat) * u⌋ < b - a + 1 := by
+    rw [Int.floor_lt]; nlinarith
+  generalize ⌊((b - a + 1 : Int) : Rat) * u⌋ = f at hlo hhi
+  unfold i64
+  omega
 
 theorem bernoulli_range (p : Rat) (raw : Nat → Nat) (k : Nat) :
     (cmb_random_bernoulli p raw k).1 ≤ 1 ∧ (cmb_random_bernoulli p raw k).2 = k + 1 := by
